@@ -112,7 +112,7 @@ def history(rng, maxn, maxk, length, space_ok=True):
             else:
                 t = [q]
         else:
-            k = rng.choice(["app", "app", "ins", "rem", "del", "rep", "rep", "con", "con", "exp", "sort", "sort", "copy"])
+            k = rng.choice(["app", "app", "ins", "rem", "del", "rep", "rep", "con", "con", "exp", "sort", "sort", "copy", "ccopy"])
             if k == "app":
                 t = [k, newstr()]
             elif k == "ins":
@@ -168,7 +168,7 @@ def build_streams(rng, tier):
     def hist_ops(res_hist, ls):
         pass
     kw = dict(oracle=oracle, shrink=shrink, tag=lambda l, o: "with-error-exit" if "!" in o else "no-error-exit",
-              nontrivial=lambda l, o: any(x.split(":")[0] in ("rep", "con", "exp", "sort", "copy", "del", "rem", "ins") for x in l.split(" ")[2].split(";")))
+              nontrivial=lambda l, o: any(x.split(":")[0] in ("rep", "con", "exp", "sort", "copy", "ccopy", "del", "rem", "ins") for x in l.split(" ")[2].split(";")))
     return [
         Stream("corpus", corpus_lines(PID), IC.handle, **kw),
         Stream("histories-n<=4", lines, IC.handle, **kw),
